@@ -2,6 +2,8 @@
 Generator of C05 histories: sequences of features with colliding keys, steered by the reference model so that third
 and later arrivals do collide with earlier '<key>_n' entries.  A case is plain data.
 """
+import copy
+
 from gvmon.models import C05 as M
 
 VALUES = {
@@ -342,3 +344,108 @@ def gen_locked(rng, fmt, strategy):
     return {"kind": "locked", "fmt": fmt, "strategy": strategy, "force": [], "idkey": idkey,
             "spec_form": "default" if fmt == "gff3" else "str", "batches": [base, new], "reopen": True, "db": "file",
             "pass_force_anyway": False, "pattern": [], "hold": rng.choice([6.5, 7.0])}
+
+
+# ---------------------------------------------------------------------------------------------------------------
+# colliding lines that REPEAT a stored line (verbatim, or up to the order of keys / values), value lists that hold a
+# value more than once
+XREFS = ["X1", "X2", "DB7", "k9"]
+REPEATABLE = ("Note", "Alias", "Dbxref", "only0", "only1", "only2")     # never the id attribute or a link attribute
+
+
+def repeat_inside(rng, rec):
+    """Make one or two value lists of the line hold a value more than once (Note=a,a / Dbxref=X1,X2,X1)."""
+    cands = [a for a in rec["attrs"] if a[0] in REPEATABLE and a[1]]
+    if not cands or rng.random() < 0.4:
+        xs = rng.sample(XREFS, rng.choice([1, 2, 2]))
+        a = ["Dbxref", xs]
+        rec["attrs"].append(a)
+        cands.append(a)
+    for a in rng.sample(cands, min(len(cands), rng.choice([1, 1, 2]))):
+        vals = list(a[1])
+        for _ in range(rng.choice([1, 1, 2])):
+            vals.insert(rng.randrange(0, len(vals) + 1), rng.choice(a[1]))
+        a[1] = vals
+
+
+def repeat_of(rng, rec, fmt, how, nlead):
+    """A copy of the line: "verbatim" | "keys" (attribute keys in another order) | "values" (values of a list in another
+    order) | "both".  nlead: leading attributes that stay in place (gtf: format detection looks at the first ones)."""
+    new = copy.deepcopy(rec)
+    if how in ("keys", "both"):
+        head, tail = new["attrs"][:nlead], new["attrs"][nlead:]
+        if len(tail) >= 2:
+            for _ in range(8):
+                t = list(tail)
+                rng.shuffle(t)
+                if t != tail and ((head or t)[0][1] != []):
+                    tail = t
+                    break
+        new["attrs"] = head + tail
+    if how in ("values", "both"):
+        for a in new["attrs"]:
+            if len(a[1]) >= 2:
+                v = list(a[1])
+                rng.shuffle(v)
+                a[1] = v
+    return new
+
+
+def gen_verbatim(rng, fmt, strategy, force, opts=None, inner=None):
+    """A history in which stored lines arrive again - verbatim, or differing only in the order of keys / values -, in the
+    same import run or in a later update(); inner: some value lists of the repeated lines hold a value more than once."""
+    opts = dict(opts or {})
+    opts.pop("dots", None)
+    inner = (rng.random() < 0.7) if inner is None else inner
+    flavour = rng.choice(["plain", "plain", "layered", "multirun"])
+    if flavour == "plain":
+        # a few features, nothing else collides
+        case = gen_history(rng, fmt, strategy, force, "create", arrivals=1, opts=dict(opts, nbase=rng.choice([1, 2])))
+    elif flavour == "layered" or strategy == "error":
+        case = gen_history(rng, fmt, strategy, force, "create", arrivals=rng.choice([1, 2, 3]), opts=dict(opts, nbase=1))
+    else:
+        case = gen_multirun(rng, fmt, strategy, force, opts=opts)
+    idkey = case["idkey"]
+    batches = [list(b) for b in case["batches"]]
+    nlead = 0
+    if fmt == "gtf":
+        nlead = 2 if not case.get("gtfkeys") else 3
+    allrecs = [r for b in batches for r in b]
+    if inner:
+        for rec in rng.sample(allrecs, max(1, min(len(allrecs), rng.choice([1, 2, 3])))):
+            repeat_inside(rng, rec)
+    withrep = [r for r in allrecs if any(len(set(v)) != len(v) for _, v in r["attrs"])]
+    # which lines arrive again, how, and where
+    k = rng.choice([1, 1, 2, 3])
+    chosen = (rng.sample(withrep, min(len(withrep), k)) if withrep and rng.random() < 0.8 else
+              rng.sample(allrecs, min(len(allrecs), k)))
+    hows = []
+    for rec in chosen:
+        how = rng.choice(["verbatim", "verbatim", "verbatim", "keys", "values", "both"])
+        hows.append(how)
+        for _ in range(rng.choice([1, 1, 1, 2])):
+            new = repeat_of(rng, rec, fmt, how, nlead)
+            where = rng.choice(["next", "later", "end", "update", "update"])
+            bi = [i for i, b in enumerate(batches) if any(r is rec for r in b)][0]
+            j = [i for i, r in enumerate(batches[bi]) if r is rec][0]
+            if where == "next":
+                batches[bi].insert(j + 1, new)
+            elif where == "later":
+                batches[bi].insert(rng.randrange(j + 1, len(batches[bi]) + 1), new)
+            elif where == "end":
+                batches[-1].append(new)
+            elif bi + 1 < len(batches) and rng.random() < 0.5:
+                batches[bi + 1].insert(rng.randrange(0, len(batches[bi + 1]) + 1), new)
+            else:
+                batches.append([new])
+    case["batches"] = batches
+    nb = len(batches)
+    if nb > 1:
+        if not isinstance(case["reopen"], list) or len(case["reopen"]) != nb - 1:
+            mode = rng.choice(["never", "always", "mixed"])
+            case["reopen"] = [mode == "always" or (mode == "mixed" and rng.random() < 0.5) for _ in range(nb - 1)]
+        if any(case["reopen"]):
+            case["db"] = "file"
+    case["repeats"] = [sorted(hows), bool(inner), flavour]
+    case["opts"] = sorted(set(case.get("opts", []) + ["verbatim"] + (["inner"] if inner else [])))
+    return case
